@@ -159,11 +159,13 @@ impl ColumnMetrics {
         let line_break = self.line_ending.as_str();
 
         if text[..base.byte].ends_with(line_break) {
-            let new_pos = Pos::new(
+            // The column of the end of the previous line must be measured
+            // from the start of that line.
+            let line_end = Pos::new(
                 base.byte - line_break.len(),
                 base.page.line - 1,
                 0);
-            return Some(new_pos);
+            return Some(self.position_in_line(text, line_end));
         }
 
         let mut chars = text[..base.byte].chars();
@@ -172,18 +174,11 @@ impl ColumnMetrics {
                 // To get position of tab start, we must measure from the start
                 // of the line.
 
-                // Advance until we find the tab just before the current
-                // position.
-                let mut new_pos = self.line_start_position(text, base);
-                loop {
-                    let next = self.next_position(text, new_pos)
-                        .expect("next position is guaranteed");
-                    new_pos = next;
-                    if new_pos.byte == base.byte - TAB_LEN_UTF8 { break }
-                }
-
-                
-                Some(new_pos)
+                let tab_start = Pos::new(
+                    base.byte - TAB_LEN_UTF8,
+                    base.page.line,
+                    0);
+                Some(self.position_in_line(text, tab_start))
             },
 
             Some(c) => {
@@ -196,6 +191,17 @@ impl ColumnMetrics {
 
             None => None,
         }
+    }
+
+    /// Returns the given position with its column measured from the start of
+    /// its line. The byte and line of the position must be correct.
+    fn position_in_line(&self, text: &str, pos: Pos) -> Pos {
+        let mut new_pos = self.line_start_position(text, pos);
+        while new_pos.byte < pos.byte {
+            new_pos = self.next_position(text, new_pos)
+                .expect("next position is guaranteed");
+        }
+        new_pos
     }
 
     /// Returns true if a line break is positioned at the given byte position in
